@@ -61,6 +61,7 @@ def run_wide(tier, seed, wd, jobs=None):
     for f in doc["facts"]:
         if f.get("outcome") == "toolerr":
             raise ToolError("wide slice: %s" % f.get("msg"))
+        f["colour"] = str(f["colour"])          # (beyond TLC's 32-bit integers; the judge does not compute with it)
     verdicts, stats = common.judge_events("Trace_Slice.tla", "Trace_Slice.cfg", [doc], wd, key="facts")
     if not any(f["valid"] for f in doc["facts"]):
         raise ToolError("wide slice: no valid colour exercised")
